@@ -300,18 +300,20 @@ func (s *server) publishLog(ctx context.Context, topic string, req *pushLogReque
 
 	s.mu.Lock()
 	t, ok := s.topics[topic]
-	s.mu.Unlock()
-	if ok {
-		_, err = t.Publish(ctx, data, rpc.WithIgnoreResponse(true))
-		if err != nil {
-			return NewErrPushLog(err, errors.NewKV("Topic", topic))
-		}
-		return nil
+	if !ok {
+		// If the topic hasn't been explicitly subscribed to, we temporarily join it
+		// to publish the log. The topics stay locked meanwhile: a subscription to the
+		// same topic that arrives now waits, instead of failing on the half-joined topic.
+		defer s.mu.Unlock()
+		return s.publishDirectToTopic(ctx, topic, data, false)
 	}
+	s.mu.Unlock()
 
-	// If the topic hasn't been explicitly subscribed to, we temporarily join it
-	// to publish the log.
-	return s.publishDirectToTopic(ctx, topic, data, false)
+	_, err = t.Publish(ctx, data, rpc.WithIgnoreResponse(true))
+	if err != nil {
+		return NewErrPushLog(err, errors.NewKV("Topic", topic))
+	}
+	return nil
 }
 
 // publishDirectToTopic temporarily joins a pubsub topic to publish data and immediately closes it.
